@@ -4,6 +4,7 @@ import ast
 from sa.model import walk_function, AnalysisError
 from sa.norm import u, atoms, guard_atoms, linear
 from sa import util
+from rules import common
 from rules import c03
 
 PROPERTY = "C18"
@@ -164,70 +165,84 @@ def r3(ctx):
         t = "_vector_score_lower(c_old_score, %s)" % new_p
         ok = (t, True) in gu and (t, False) in gd
     ctx.ob(cs.qual, "sift-direction-follows-score-change", ok, cs.loc(), "an increased score sifts up, anything else sifts down" if ok else "sift direction is not `old < new -> up else down`")
+    # _sift_up / _sift_down are judged on their path summaries (recursion or loop, one block per case or one shared
+    # block after choosing the child, temporaries or not): see sa/pathfx.py
+    from sa import pathfx
+
+    def calls_named(ps, name):
+        return [e_ for e_ in ps.effects if e_[0] == "call" and u(e_[1].func) == name]
+
     su = ctx.func(PQ + "._sift_up")
     sucfg = ctx.cfg(su)
     idx = util.params_of(su.node)[1]
-    pd = util.single_def(su.node, "parentindex")
-    swp = [c for c in ctx.prog.calls_in(su.node) if u(c.func) == "self._swap"]
-    rec = [c for c in ctx.prog.calls_in(su.node) if u(c.func) == "self._sift_up"]
-    ok = pd is not None and u(pd) == "_parent(%s)" % idx and len(swp) == 1 and len(rec) == 1 and u(rec[0].args[0]) == "parentindex" and {u(a) for a in swp[0].args} == {"parentindex", idx}
-    if ok:
-        ga = guard_atoms(sucfg, sucfg.node_containing(swp[0]))
-        ok = ("self._score_lower(parentindex, %s)" % idx, True) in ga and ("parentindex < 0", False) in ga
-    ctx.ob(su.qual, "sift-up-swaps-when-parent-lower", ok, su.loc(), "a node is swapped with its parent exactly when the parent's score is lower, then the walk continues at the parent" if ok else "_sift_up no longer swaps under `parent lower` and recurses on the parent")
+    P = "_parent(%s)" % idx
+    sums = pathfx.summaries(sucfg)
+    ctx.require(len(sums) >= 2, "_sift_up has fewer than two feasible paths")
+    bad = None
+    n_swap_paths = 0
+    for ps in sums:
+        sw = calls_named(ps, "self._swap")
+        low = ps.has("self._score_lower(%s, %s)" % (P, idx), True)
+        root = ps.has("%s < 0" % P, True)
+        if sw:
+            n_swap_paths += 1
+            first = sw[0][1]
+            args = {u(a_) for a_ in first.args}
+            cont = any(u(e_[1].args[0]) == P for e_ in calls_named(ps, "self._sift_up") if e_[1].args) or (idx in ps.env and u(ps.env[idx]) in (P, "_parent(%s)" % P) or u(ps.env.get(idx, ast.Name(id=idx))).startswith("_parent("))
+            if not (args == {P, idx} and low and ps.has("%s < 0" % P, False) and cont):
+                bad = (ps, "swaps %s without `parent exists and parent lower` having been established, or does not continue at the parent" % sorted(args))
+        else:
+            A_, B_ = "%s < 0" % P, "self._score_lower(%s, %s)" % (P, idx)
+            if not common.path_implies(ps.atoms, [A_, B_], lambda env: env[A_] or not env[B_]):
+                bad = (ps, "stops although the parent was not found to be missing or not lower")
+    ok = bad is None and n_swap_paths >= 1
+    ctx.ob(su.qual, "sift-up-swaps-when-parent-lower", ok, su.loc(), "a node is swapped with its parent exactly when the parent exists and its score is lower, then the walk continues at the parent (all %d paths)" % len(sums) if ok else "_sift_up %s" % (bad[1] if bad else "never swaps"), sucfg.describe_path(bad[0].path) if bad else None)
     sdn = ctx.func(PQ + "._sift_down")
     dcfg = ctx.cfg(sdn)
     idx = util.params_of(sdn.node)[1]
-    l, r = util.single_def(sdn.node, "lchildindex"), util.single_def(sdn.node, "rchildindex")
-    ok = l is not None and r is not None and u(l) == "_left_child(%s)" % idx and u(r) == "_right_child(%s)" % idx
-    swaps = [c for c in ctx.prog.calls_in(sdn.node) if u(c.func) == "self._swap"]
+    L, R = "_left_child(%s)" % idx, "_right_child(%s)" % idx
+    sums = pathfx.summaries(dcfg)
+    ctx.require(len(sums) >= 3, "_sift_down has fewer than three feasible paths")
+    lowf = lambda ps, a_, b_, pol: ps.has("self._score_lower(%s, %s)" % (a_, b_), pol)
     n_sw = 0
-    for c in swaps:
-        child = [u(a) for a in c.args if u(a) != idx]
-        ga = guard_atoms(dcfg, dcfg.node_containing(c))
-        if len(child) != 1:
-            ok = False
-            continue
-        ch = child[0]
-        other = "rchildindex" if ch == "lchildindex" else "lchildindex"
-        cond = ("self._score_lower(%s, %s)" % (idx, ch), True) in ga
-        # larger child: either the other child does not exist, or the comparison says `ch` is not the lower one
-        if ("%s < self.heap.size()" % "rchildindex", True) in ga:
-            bigger = ("self._score_lower(%s, %s)" % (other, ch), True) in ga if ch == "rchildindex" else ("self._score_lower(%s, %s)" % (ch, other), False) in ga
-        else:
-            bigger = ch == "lchildindex" and ("lchildindex < self.heap.size()", True) in ga
-        follow = any(u(x.func) == "self._sift_down" and u(x.args[0]) == ch and util.stmt_of(x).parent is util.stmt_of(c).parent for x in ctx.prog.calls_in(sdn.node))
-        n_sw += 1
-        ctx.ob(sdn.qual, "sift-down-into-larger-child:%s#%d" % (ch, n_sw), cond and bigger and follow, sdn.loc(c), "swap with %s only if the node is lower than it and it is the larger existing child; continue there" % ch if cond and bigger and follow else "_sift_down swaps with %s without it being the larger child / without the node being lower / without continuing there" % ch)
-    # completeness: a path that ends without a swap has established that the node is not lower than its larger child
-    import networkx as nx
-    from sa.norm import path_atoms
-
-    swap_nodes = {dcfg.node_containing(c) for c in swaps}
     lacking = None
-    n_paths = 0
-    for path in nx.all_simple_paths(dcfg.g, dcfg.entry, dcfg.exit):
-        if swap_nodes & set(path):
-            continue
-        n_paths += 1
-        A = path_atoms(dcfg, path)
-        if any((t, not pol) in A for t, pol in A):
-            continue  # infeasible: the same (side-effect free) comparison taken both ways
-        low = lambda a, b, pol: ("self._score_lower(%s, %s)" % (a, b), pol) in A
-        if ("rchildindex < self.heap.size()", True) in A:
-            fine = False
-            for X, other in (("rchildindex", "lchildindex"), ("lchildindex", "rchildindex")):
-                x_is_larger = low(other, X, True) or low(X, other, False)
-                if x_is_larger and low(idx, X, False):
-                    fine = True
-        elif ("lchildindex < self.heap.size()", True) in A:
-            fine = low(idx, "lchildindex", False)
+    n_quiet = 0
+    swapped_children = set()
+    for ps in sums:
+        sw = calls_named(ps, "self._swap")
+        both = ps.has("%s < self.heap.size()" % R, True)
+        left_only = ps.has("%s < self.heap.size()" % R, False) and ps.has("%s < self.heap.size()" % L, True)
+        if sw:
+            first = sw[0][1]
+            ch = [u(a_) for a_ in first.args if u(a_) != idx]
+            n_sw += 1
+            okc = len(ch) == 1 and ch[0] in (L, R) and len(first.args) == 2
+            cond = bigger = follow = False
+            if okc:
+                c_ = ch[0]
+                other = R if c_ == L else L
+                cond = lowf(ps, idx, c_, True)
+                if both:
+                    bigger = lowf(ps, other, c_, True) or lowf(ps, c_, other, False)
+                else:
+                    bigger = c_ == L and left_only
+                follow = any(e_[1].args and u(e_[1].args[0]) == c_ for e_ in calls_named(ps, "self._sift_down")) or u(ps.env.get(idx, ast.Name(id=idx))) == c_
+                swapped_children.add(("both" if both else "left-only", c_))
+            short = (ch[0].replace(L, "left child").replace(R, "right child") if ch else "?")
+            ctx.ob(sdn.qual, "sift-down-into-larger-child:%s#%d" % (short, n_sw), okc and cond and bigger and follow, sdn.loc(sw[0][3]), "swap with the %s only if the node is lower than it and it is the larger existing child; continue there" % short if okc and cond and bigger and follow else "_sift_down swaps with %s without it being the larger child / without the node being lower / without continuing there" % short, None if okc and cond and bigger and follow else dcfg.describe_path(ps.path))
         else:
-            fine = ("rchildindex < self.heap.size()", False) in A and ("lchildindex < self.heap.size()", False) in A
-        if not fine and lacking is None:
-            lacking = path
-    ctx.ob(sdn.qual, "sift-down-stops-only-above-both-children", lacking is None and n_paths >= 3, sdn.loc(), "on each of the %d paths that end without a swap the node was compared with its larger existing child (or has none) and found not lower" % n_paths if lacking is None else "_sift_down can stop although the node was never compared with its larger child (e.g. both children equal): the heap order is left violated", dcfg.describe_path(lacking) if lacking else None)
-    ctx.ob(sdn.qual, "children-indices", ok and len(swaps) == 3, sdn.loc(), "children are _left_child(i), _right_child(i); three swap sites (both children / left only)" if ok and len(swaps) == 3 else "_sift_down structure changed")
+            n_quiet += 1
+            if both:
+                fine = any((lowf(ps, o_, X, True) or lowf(ps, X, o_, False)) and lowf(ps, idx, X, False) for X, o_ in ((R, L), (L, R)))
+            elif left_only:
+                fine = lowf(ps, idx, L, False)
+            else:
+                fine = ps.has("%s < self.heap.size()" % R, False) and ps.has("%s < self.heap.size()" % L, False)
+            if not fine and lacking is None:
+                lacking = ps
+    ctx.ob(sdn.qual, "sift-down-stops-only-above-both-children", lacking is None and n_quiet >= 3, sdn.loc(), "on each of the %d paths that end without a swap the node was compared with its larger existing child (or has none) and found not lower" % n_quiet if lacking is None else "_sift_down can stop although the node was never compared with its larger child (e.g. both children equal): the heap order is left violated", dcfg.describe_path(lacking.path) if lacking else None)
+    okcov = {("both", L), ("both", R), ("left-only", L)} <= swapped_children
+    ctx.ob(sdn.qual, "children-indices", okcov, sdn.loc(), "children are _left_child(i), _right_child(i); a swap is possible with either child when both exist and with the left one when it is the only one" if okcov else "_sift_down does not cover the three cases (both children: left / right larger; left child only): %s" % sorted(swapped_children))
     for name, want in (("_parent", {"index": 1, "": -1}), ("_left_child", None), ("_right_child", None)):
         f = ctx.func(MOD + "." + name)
         ret = [n for n in walk_function(f.node) if isinstance(n, ast.Return)][0].value
